@@ -43,13 +43,38 @@ func VerifC10Terminate() {
 		// the caller (the proxy's connection handler) closes the client connection afterwards
 		client.Close()
 	}()
+	// session state
+	var gate chan struct{}
+	state := vf.Choice("state", 5)
+	if state == 4 {
+		// the session ends while the connection preface is still being exchanged, after the
+		// upstream connection has been dialled
+		switch vf.Choice("preface-fault", 4) {
+		case 0:
+			client.endpointCloses()
+		case 1:
+			client.send(connectionPreface[:10])
+			client.endpointCloses()
+		case 2:
+			client.send([]byte("GET / HTTP/1.1\r\nHost: x\r\n\r\n")[:24])
+		case 3:
+			server.failWrites = true
+			client.send(connectionPreface)
+		}
+		vf.Quiesce()
+		vf.Assert(returned, "relay-call-returns")
+		vf.Assert(server.closed, "upstream-connection-closed-on-return")
+		if returned {
+			vf.Assert(vf.Goroutines() <= 1, "no-session-goroutine-remains")
+		}
+		vf.Reach("preface")
+		vf.Reach("done")
+		return
+	}
 	client.send(connectionPreface)
 	vf.Quiesce()
 	base := vf.Goroutines()
 
-	// session state
-	var gate chan struct{}
-	state := vf.Choice("state", 4)
 	switch state {
 	case 1: // mid-stream: a request has been forwarded
 		client.send(frameBytes(func(fr *http2.Framer) {
